@@ -2,6 +2,7 @@ package checks
 
 import (
 	"fmt"
+	"os"
 	"sort"
 	"strings"
 
@@ -12,6 +13,7 @@ import (
 	"verif/internal/dom"
 	"verif/internal/engine"
 	"verif/internal/ev"
+	"verif/internal/isa"
 	"verif/internal/load"
 	"verif/internal/rules"
 )
@@ -28,8 +30,17 @@ func c12(cx *Ctx, r *ev.Report) {
 	d := noLoopsBelowStep(cx, r, "C12")
 	// Run returns once its program halts: the automaton of C08
 	if sem := cx.runSem(); sem.err == nil {
-		r.Check(len(sem.violations) == 0 && sem.returns[retNil] > 0, "C12/terminates/func=(*CPU).Run",
-			"RUN-ITERATION: the loop leaves through 'return nil' on the first Step after which the halted indication is set", cx.P.Pos(run.Pos()), "summary-equality", sem.violations...)
+		det := append([]string{}, sem.violations...)
+		// ... and what Run does with its goroutine on the way out neither blocks
+		// for ever nor panics (a wait for a signal that is not given, a channel
+		// closed twice)
+		for _, m := range uniqueStrings(append(append([]string{}, sem.leak...), sem.watch...)) {
+			if strings.Contains(m, "hang") || strings.Contains(m, "(panic)") || strings.Contains(m, "blocks") {
+				det = append(det, m)
+			}
+		}
+		r.Check(len(det) == 0 && sem.returns[retNil] > 0, "C12/terminates/func=(*CPU).Run",
+			"RUN-ITERATION: the loop leaves through 'return nil' on the first Step after which the halted indication is set; Run's exit path does not wait for something its goroutine does not signal and closes no channel twice", cx.P.Pos(run.Pos()), "summary-equality", det...)
 	} else if ri, err := analyseRun(cx); err == nil {
 		res := ri.explore()
 		sort.Strings(res.violations)
@@ -174,10 +185,13 @@ func c12(cx *Ctx, r *ev.Report) {
 			a.det = append(a.det, fmt.Sprintf("%s: %s (%s) in %s: UNDECIDED - the function was interpreted only partly (%s) and no shape rule applies: %s", cx.P.Pos(s.Instr.Pos()), s.What, s.Kind, s.Fn, incomplete[s.Fn.String()], s.Why))
 		case va != nil && va.ok > 0 && va.bad == 0:
 			byRule["SUMMARY-VALUE"]++
-		case va == nil && covered[s.Fn.String()] && len(undecidedArms) == 0:
+		case va == nil && covered[s.Fn.String()] && len(undecidedArms) == 0 && loggedWhenExecuted(s.Kind, s.What):
 			// the function is interpreted by the exhaustive summaries and no
 			// feasible path of any of them reaches this instruction
 			byRule["SUMMARY-UNREACHED"]++
+			if os.Getenv("VERIF_DEBUG") != "" {
+				fmt.Fprintf(os.Stderr, "UNREACHED %s %s %s %s\n", s.Kind, s.What, s.Fn, cx.P.Pos(s.Instr.Pos()))
+			}
 		default:
 			a.det = append(a.det, fmt.Sprintf("%s: %s (%s) in %s can panic: %s (and no summary reaches it with a value-based verdict)", cx.P.Pos(s.Instr.Pos()), s.What, s.Kind, s.Fn, s.Why))
 		}
@@ -216,8 +230,14 @@ func c12(cx *Ctx, r *ev.Report) {
 		extra := []stepRow{}
 		_ = extra
 		for _, row := range rows {
-			ds := diffStrings(cx.E.CompareUnder(sa.impl, sa.ref, row.pred), nil)
-			r.Check(len(ds) == 0, "C12/any-request/row="+row.name, ruleQ, pos, "summary-equality", ds...)
+			// what the row does in detail is C06's subject; here only what keeps Run
+			// from going on: an accepted request must be consumed (else every Step
+			// accepts it again and the program never reaches its HALT), a refused one
+			// must not stop the instruction at PC from being executed
+			ds := diffStrings(cx.E.CompareUnder(sa.impl, sa.ref, row.pred), func(d engine.Diff) bool {
+				return d.What == "Interrupt" || eventKind(d) == isa.KindExec
+			})
+			r.Check(len(ds) == 0, "C12/any-request/row="+row.name, ruleQ+"; an accepted request is consumed, a refused one leaves the instruction at PC to be executed", pos, "summary-equality", ds...)
 		}
 		for _, row := range sa.emptyRows {
 			ds := diffStrings(cx.E.CompareUnder(sa.impl, sa.ref, row.pred), nil)
@@ -265,4 +285,31 @@ func c12(cx *Ctx, r *ev.Report) {
 
 func shortFn(f *ssa.Function) string {
 	return strings.ReplaceAll(strings.ReplaceAll(f.String(), "github.com/koron-go/z80.", ""), "(*CPU).", "cpu.")
+}
+
+// loggedWhenExecuted: the interpreter records a verdict for this kind of site
+// every time it executes one - only then does "no verdict" mean "not reached".
+// (Slice bounds, unchecked type assertions, divisions, shifts, make and string
+// indexing are evaluated or refused without a site record.)
+func loggedWhenExecuted(kind, what string) bool {
+	switch kind {
+	case "nil-deref", "nil-invoke", "map-update", "explicit-panic":
+		return true
+	case "index":
+		return what == "slice element" || what == "array element" || what == "array value element"
+	case "call-value":
+		return what == "call of a function value" || what == "close"
+	}
+	return false
+}
+
+func uniqueStrings(in []string) []string {
+	sort.Strings(in)
+	var out []string
+	for i, s := range in {
+		if i == 0 || s != in[i-1] {
+			out = append(out, s)
+		}
+	}
+	return out
 }
